@@ -17,3 +17,13 @@ claim("C16", "DESIGN.md 5 C16",
       "Exhaustive enumeration of (input length, MTU) pairs: the complete grid [nil,0..300]x[1..300], all lengths 0..10000 (thorough) or every length around a multiple of the MTU (quick) for 13 boundary MTUs, and every OpusPacket input length 0..300 x marker x fresh/used receiver; each case runs the real payloaders and is compared with the trivial reference (concatenation, fragment sizes, aliasing by address and by overwrite).",
       "Payload bytes are position dependent; the payloaders do not branch on content. Lengths > 10000 and MTUs outside the alphabet are outside the bound.",
       "bounded exhaustive enumeration of inputs against a reference model (explicit choice-tree DFS on the real code)")
+
+claim("C17", "DESIGN.md 5 C17",
+      "Complete enumeration of the value domains: 2x256 audio levels, all 2^16 transport sequence numbers, all 2^24 playout-delay pairs plus the out-of-range alphabet, all 2^24 abs-send-time values (x5 settings of the ignored upper bits), AbsCaptureTime over 2x5^8 64-bit grid words against 12-13 values of the other field; every decoder with every input length nil,0..size+2 (0..18 for AbsCaptureTime) x 3 contents x 3 prior receiver states. Every case is compared bit for bit with the layout written from the specifications and decoded back into fresh and used receivers.",
+      "64-bit AbsCaptureTime fields are a grid (8-byte strings over {00,01,7F,80,FF}), not the full domain.",
+      "complete-domain enumeration against a bit-level reference encoder (explicit choice-tree DFS on the real code)")
+
+claim("C18", "DESIGN.md 5 C18",
+      "Exhaustive over a stated boundary grid of the (continuous) time domain: 5 eras (1970 .. 130 s before the NTP era end) x 8 second offsets around the 64 s wrap of the 24-bit field x a sub-second grid (26 points quick; every nanosecond of the first and last three 2^-18 s quanta and around every 1/64 s, 23k points, thorough) x 18 delays up to 64 s - 2^-18 s - 1 ns, and 16 offset magnitudes x sign x 4 sub-second additions x era. Every grid point runs the real constructors, the wire round trip and the inverse mapping and is checked against the 1 ns / 2^-18 s bounds of the property.",
+      "Instants, delays and offsets between grid points are outside the bound; the grid follows the structure of the arithmetic (fraction depends on the sub-second part only; the 24-bit field on seconds mod 64 and the top 18 fraction bits).",
+      "bounded exhaustive enumeration over a boundary grid (explicit choice-tree DFS on the real code)")
